@@ -285,6 +285,10 @@ func (g *Gen) userOp() Step {
 
 func (g *Gen) nativeOp() Step {
 	w := g.R.W
+	if g.operExit && len(w.Vals) < 7 && g.rng2.Float64() < 0.03 {
+		// a new validator joins the set (with few validators allowed it may push another one out)
+		return Step{K: "create_val", Amt: fmt.Sprint(500_000 + g.rng2.Int64N(9_000_000))}
+	}
 	if g.operExit && len(w.Vals) > 1 && g.rng2.Float64() < 0.06 {
 		// an operator leaves: the validator is jailed, unbonds and is removed by x/staking once nothing is
 		// delegated to it any more (alliance-minted stake on it keeps it alive)
